@@ -3,4 +3,12 @@ import Gobptree.Slice
 import Gobptree.Search
 import Gobptree.Node
 import Gobptree.Ops
+import Gobptree.Spec
+import Gobptree.Run
 import Gobptree.Driver
+import Gobptree.Proofs.RunOk
+import Gobptree.Props.C01
+import Gobptree.Props.C05
+import Gobptree.Props.C08
+import Gobptree.Props.C11
+import Gobptree.Props.C12
